@@ -871,6 +871,7 @@ theorem rsim_apply {st : State} {m : Send} {r : Recv} (hs : SInv (view st) m) (h
   | cancel id => exact rsim_cancel h hs.nodup id
   | read id n => exact rsim_read h hs.nodup id n
   | close id => exact rsim_close h hs.nodup id
+  | wake => exact ⟨r, rfl, h⟩
   | peer f =>
     obtain ⟨r', h1, h2⟩ := rsim_peer hs h f
     refine ⟨r', ?_, h2⟩
